@@ -227,6 +227,7 @@ PROBES.update({
         ("out (false && true)", expect("false\n")),
         ("out (0 || 0)", expect("false\n")),
         ("out (1 && true)", expect("true\n")),
+        ("out (true || false && false)", expect("true\n")),
     ],
     "C16": [
         ('tout json ([\"a\",\"b\",\"c\"]) -> [1]', expect("b")),
